@@ -221,7 +221,73 @@ def pericont(ctx, n):
                 ctx.fail("corr", "_jitcontinuous_perievent != model", inp, impl=got, model=m)
 
 
+def perievent_decimal_edges(ctx, n):
+    """decimal times (the float sums r - w, r + w carry noise): a sample exactly on the LEFT edge of the window is returned with lag -w,
+    a sample exactly on the RIGHT edge is not"""
+    rng = ctx.rng
+    for k in range(n):
+        dec = rng.choice([1, 2])
+        r = round(rng.uniform(0, 100), dec); w = round(rng.uniform(0.1, 3), dec); w2 = round(rng.uniform(0.1, 3), dec) if k % 2 else w
+        a, b = round(r - w, dec), round(r + w2, dec)
+        mid = round(r + (w2 - w) / 4, 3)
+        inp = dict(level="perievent-decimal-edges", ref=r, window=[-w, w2], samples=[a, mid, b])
+        ctx.case(("pde", r, w, w2), inp if k % 37 == 0 else None)
+        ctx.count("perievent_decimal_edges")
+        for form in ("Ts", "Tsd"):
+            x = nap.Ts(t=np.array([a, mid, b])) if form == "Ts" else nap.Tsd(t=np.array([a, mid, b]), d=np.array([1.0, 2.0, 3.0]))
+            try:
+                g = nap.compute_perievent(x, nap.Ts(t=np.array([r])), (-w, w2))
+                lags = np.asarray(g[0].t)
+            except Exception as e:
+                ctx.fail("oracle", "compute_perievent raised %r" % (e,), dict(inp, form=form)); continue
+            want = [-w, round(mid - r, 3)]
+            if len(lags) != 2 or abs(lags[0] + w) > 1e-9 or abs(lags[1] - want[1]) > 1e-9:
+                ctx.fail("oracle", "compute_perievent: the sample on the left edge is kept, the one on the right edge is not", dict(inp, form=form),
+                         impl=[float(v) for v in lags], expected=want)
+
+
+def pericont_public(ctx, n):
+    """compute_perievent_continuous (the public wrapper: window in TIME, converted to sample steps) on a regularly sampled recording made of two
+    sessions with a gap between them: one row per sample step o = -w..w labelled o x dt, column j = the samples o steps from the sample at the
+    j-th reference time within the same session, NaN beyond the session"""
+    rng = ctx.rng
+    for k in range(n):
+        dt = rng.choice([1.0, 0.5, 0.01])
+        n1, n2 = rng.randint(6, 30), rng.randint(6, 30)
+        gap = rng.choice([3, 50, 400])
+        steps = np.concatenate([np.arange(n1), n1 + gap + np.arange(n2)])
+        t = np.round(steps * dt, 9)
+        d = np.arange(len(t)) + 100.0
+        sup = nap.IntervalSet([t[0], t[n1]], [t[n1 - 1], t[-1]])
+        cls = k % 2
+        x = nap.Tsd(t, d, time_support=sup) if cls == 0 else nap.TsdFrame(t, np.stack([d, d + 1000], 1), time_support=sup)
+        w = rng.randint(1, 5)
+        pos = sorted(rng.sample(range(len(t)), rng.randint(1, 4)))
+        inp = dict(level="pericont-public", dt=dt, sessions=[n1, n2], gap_steps=gap, window_steps=w, ref_positions=pos, cls=["Tsd", "TsdFrame"][cls])
+        ctx.case(("pcp", dt, n1, n2, gap, w, tuple(pos), cls), inp if k % 29 == 0 else None)
+        ctx.count("pericont_public")
+        try:
+            out = nap.compute_perievent_continuous(x, nap.Ts(t[pos]), (-(w * dt), w * dt))
+        except Exception as e:
+            ctx.fail("oracle", "compute_perievent_continuous raised %r" % (e,), inp); continue
+        v = np.asarray(out.values)
+        lags = np.asarray(out.t)
+        if v.shape[:2] != (2 * w + 1, len(pos)) or not np.allclose(lags, np.arange(-w, w + 1) * dt, atol=1e-9):
+            ctx.fail("oracle", "compute_perievent_continuous: rows are not the sample steps -w..w labelled o x dt", inp,
+                     impl=dict(shape=list(v.shape), lags=[float(a) for a in lags[:12]])); continue
+        col0 = v if v.ndim == 2 else v[:, :, 0]
+        for j, p_ in enumerate(pos):
+            lo, hi = (0, n1) if p_ < n1 else (n1, len(t))
+            exp = [d[p_ + o] if lo <= p_ + o < hi else np.nan for o in range(-w, w + 1)]
+            if not np.array_equal(np.nan_to_num(col0[:, j], nan=-1.0), np.nan_to_num(np.array(exp), nan=-1.0)):
+                ctx.fail("oracle", "compute_perievent_continuous: column %d is not the window of samples around its reference within the session" % j, inp,
+                         impl=[None if np.isnan(a) else float(a) for a in col0[:, j]], expected=[None if np.isnan(a) else float(a) for a in exp])
+                break
+
+
 def run(ctx):
+    pericont_public(ctx, 120 if ctx.quick else 2000)
+    perievent_decimal_edges(ctx, 150 if ctx.quick else 2500)
     q = ctx.quick
     xcorr_cases(ctx, 3000 if q else 50000)
     api_corr(ctx, 25 if q else 400)
